@@ -1169,6 +1169,14 @@ def run(ctx):
                 mism.append((maps[si_][c], j, code))
     soft = [m for m in mism if m[2] in (4, 6)]
     hard = {m[0]: m for m in mism if m[2] not in (4, 6)}
+    # a validity disagreement at a step at which the direct triage found that the class's own numerics are invalid on
+    # a fresh object too (kernel hypothesis of the theorems fails: e.g. a Lanczos factor of a matrix with close
+    # eigenvalues) is explained by that: the model assumes valid kernels
+    explained = [idx for idx, (_, j, code) in hard.items()
+                 if code in (3, 5) and any(si == j and k_.get("cause") in OUTSIDE_HYPOTHESES for (si, k_, _) in probs.get(idx, []))]
+    for idx in explained:
+        del hard[idx]
+    stats["model_mismatches_explained_by_invalid_kernel"] = len(explained)
 
     # triage.  (a) every direct problem is a failing input of the property: reported under its structural key
     # (a listed known finding swallows it) - unless the model, which transcribes the listed defects, does NOT predict
